@@ -96,6 +96,20 @@ func eReport(run *vkRun, p *ePool, rs []*eSearchResult, maxDirty int) {
 			if len(v.Ops) > 0 && !strings.HasPrefix(v.Key, "process-crash") {
 				v = eShrink(p, v, eMid(v.Seg), maxDirty)
 			}
+			var n int64
+			ctx := map[string]bool{}
+			for _, r2 := range rs {
+				n += r2.violCount[v.Key]
+				for k := range r2.violCtx[v.Key] {
+					ctx[k] = true
+				}
+			}
+			var cs []string
+			for k := range ctx {
+				cs = append(cs, k)
+			}
+			sort.Strings(cs)
+			v.Desc += fmt.Sprintf(" (observed in %d expansions; last op kinds: %s)", n, strings.Join(cs, ","))
 			run.Violation(v.Key, v.Desc, v)
 		}
 	}
@@ -107,11 +121,14 @@ func eCheckC13(args []string) int {
 	}
 	tier := vkTier(args)
 	run := vkNewRun("C13", tier, "model_checking")
-	depth, segs, capS := 4, []int{1024}, 0
+	// quick: depth 6 on the minimum segment size, depth 5 on the second size
+	depth, segs, capS, depth2 := 6, []int{1024, 2048}, 0, 5
 	if tier == "thorough" {
-		depth, segs, capS = 6, []int{1024, 2048}, 20*60
+		depth, capS, depth2 = 7, 20*60, 7
 	}
-	depth = vkArgInt(args, "depth", depth)
+	if d := vkArgInt(args, "depth", 0); d > 0 {
+		depth, depth2 = d, d
+	}
 	segs = eSegs(args, segs)
 	capS = vkArgInt(args, "cap", capS)
 	p := eNewPool()
@@ -120,6 +137,9 @@ func eCheckC13(args []string) int {
 	start := time.Now()
 	for i, seg := range segs {
 		s := &eSearch{Check: "C13", Seg: seg, Mid: eMid(seg), MaxDepth: depth}
+		if i > 0 {
+			s.MaxDepth = depth2
+		}
 		if capS > 0 {
 			// share the cap between the configurations still to run
 			left := time.Duration(capS)*time.Second - time.Since(start)
@@ -148,7 +168,7 @@ func eCheckC13(args []string) int {
 	run.Cov["traces_note"] = "every transition is one operation history replayed from Open on the real log.Log in a fresh directory and compared with the reference model at its end; there is no separate abstract model to validate"
 	run.Cov["samples"] = samples
 	run.Cov["exhaustive"] = sum.exhaustive
-	run.Cov["bound"] = fmt.Sprintf("all histories of <= %d mutating ops over the alphabet, all reads in every state", depth)
+	run.Cov["bound"] = fmt.Sprintf("all histories of <= %d mutating ops (<= %d for the second segment size) over the alphabet, all reads in every state", depth, depth2)
 	run.Cov["depth_completed"] = sum.completed
 	run.Cov["distinct_outcomes"] = len(outs)
 	run.Cov["outcomes"] = sum.outcomes
@@ -181,9 +201,9 @@ func eCheckC14(args []string) int {
 	}
 	tier := vkTier(args)
 	run := vkNewRun("C14", tier, "fault_enumeration")
-	depth, segs, capS, plDepth := 3, []int{8192, 12288}, 0, 3
+	depth, segs, capS, plDepth := 5, []int{8192, 12288}, 0, 0
 	if tier == "thorough" {
-		depth, capS, plDepth = 5, 30*60, 0
+		depth, capS, plDepth = 7, 30*60, 0
 	}
 	depth = vkArgInt(args, "depth", depth)
 	segs = eSegs(args, segs)
@@ -217,11 +237,12 @@ func eCheckC14(args []string) int {
 				"crash_model": sm.Model, "dirty_pages": sm.Dirty, "pages_flushed": sm.Pages, "reopened": sm.Result})
 		}
 	}
-	var pts []string
-	for k := range sum.points {
-		pts = append(pts, k)
+	imaged := map[string]int64{}
+	for k, v := range sum.stats {
+		if strings.HasPrefix(k, "imaged:") {
+			imaged[strings.TrimPrefix(k, "imaged:")] = v
+		}
 	}
-	sort.Strings(pts)
 	run.Cov["evaluations"] = sum.stats["evaluations"]
 	run.Cov["distinct_nontrivial"] = sum.stats["nontrivial"]
 	run.Cov["rule"] = "one evaluation = one crash image written to a fresh directory, reopened with the real log.Open and checked; images are enumerated for every explored transition (distinct implementation state x op) at every hook point reached inside the op plus the quiescent point after it: the process-kill image and, where enabled, the last-msynced image with every subset of the 4 KiB pages dirtied since. Distinct = distinct (state, op, crash point, image hash); an image is trivial when it is byte-identical to the no-crash image before the op or after the completed op"
@@ -231,8 +252,9 @@ func eCheckC14(args []string) int {
 	run.Cov["exhaustive"] = sum.exhaustive
 	run.Cov["bound"] = fmt.Sprintf("all histories of <= %d mutating ops, crash inside the last one; power-loss images for last ops at depth >= %d; all page subsets up to %d dirty pages", depth, plDepth, maxDirty)
 	run.Cov["depth_completed"] = sum.completed
-	run.Cov["crash_points_seen"] = sum.points
-	run.Cov["crash_points_distinct"] = len(pts)
+	run.Cov["crash_points_seen"] = imaged
+	run.Cov["crash_points_distinct"] = len(imaged)
+	run.Cov["hook_points_passed_including_prefix_replays"] = sum.points
 	run.Cov["images_kill"] = sum.stats["images_kill"]
 	run.Cov["images_powerloss"] = sum.stats["images_powerloss"]
 	run.Cov["page_subsets_truncated"] = sum.stats["subsets_truncated"]
